@@ -455,3 +455,13 @@ CHECKS["C20"] = {
                   "in an unoptimised build of the library (where temporaries are not elided), in the checked build and in the plain release build; owning types are dropped (also as clones, in Vec and Box) inside armed windows; a statement dropped in place must no longer contain its seed.",
     "level_note": "Held on the executed windows; scanning cannot see secrets in a transformed representation. The scanner is self-tested in every process with a planted canary.",
 }
+
+
+# Minimum monitor observations for the thorough tier are calibrated from a full thorough run on the unchanged tree
+# (bin/calibrate writes 70% of what that run observed); the hand-written values above are only a fallback.
+import json as _json, os as _os
+_cal = _os.path.join(_os.path.dirname(_os.path.abspath(__file__)), "require_thorough.json")
+if _os.path.exists(_cal):
+    for _cid, _req in _json.load(open(_cal)).items():
+        if _cid in CHECKS:
+            CHECKS[_cid].setdefault("require", {})["thorough"] = _req
